@@ -590,9 +590,12 @@ class Dataset(AbstractDataset, dict, OpMixin, GetSetDelAttrMixin):
         # so that the renaming is simultaneous (e.g. a swap {'a':'b', 'b':'a'} works)
         iterkeys = list(iterkeys)
         vals = [super(Dataset, ds).__getitem__(old) for old, new in iterkeys] # same as ds[old]
+        olds = [old for old, new in iterkeys if old != new]
         for old, new in iterkeys:
-            if old != new:
-                super(Dataset, ds).__delitem__(old)
+            if old != new and new in ds.keys() and new not in olds:
+                del ds[new] # a variable that is replaced is deleted properly (its axes go when nothing else uses them)
+        for old in olds:
+            super(Dataset, ds).__delitem__(old)
         for (old, new), val in zip(iterkeys, vals):
             if old != new:
                 super(Dataset, ds).__setitem__(new, val)
